@@ -107,4 +107,116 @@ theorem dispatchChildren_spec (tbl : Table) (k : Kind) (typ : String) (stanza : 
       have := ih cons.tail _ h2
       exact ⟨by rw [this.1, h1], this.2⟩
 
+/-! ### `bufReader.Token` call by call -/
+
+/-- reading `c` times through a `bufReader` whose offset lies inside its buffer yields the next
+`c` tokens of `buf ++ rest` from the offset, whichever way the underlying reader reports the end
+of its input, and the buffer afterwards holds every token that was handed out -/
+theorem BufR.readN_spec (f : Framing) : ∀ (c : Nat) (pre post : List Tok) (off : Nat),
+    off ≤ pre.length →
+    (BufR.readN f c ⟨pre, off, post⟩).1 = ((pre ++ post).drop off).take c ∧
+    (BufR.readN f c ⟨pre, off, post⟩).2.buf = pre ++ post.take (off + c - pre.length) ∧
+    (BufR.readN f c ⟨pre, off, post⟩).2.rest = post.drop (off + c - pre.length) := by
+  intro c
+  induction c with
+  | zero =>
+    intro pre post off h
+    have : off - pre.length = 0 := by omega
+    simp [BufR.readN, this]
+  | succ c ih =>
+    intro pre post off h
+    unfold BufR.readN BufR.token
+    cases hg : pre[off]? with
+    | some t =>
+      have hlt : off < pre.length := by
+        rcases List.getElem?_eq_some_iff.mp hg with ⟨h1, _⟩; exact h1
+      have hget : pre[off] = t := by
+        rcases List.getElem?_eq_some_iff.mp hg with ⟨_, h2⟩; exact h2
+      have hih := ih pre post (off + 1) (by omega)
+      have hd : (pre ++ post).drop off = t :: (pre ++ post).drop (off + 1) := by
+        have hl : off < (pre ++ post).length := by simp; omega
+        rw [List.drop_eq_getElem_cons hl]
+        simp [List.getElem_append_left hlt, hget]
+      simp only []
+      refine ⟨?_, ?_, ?_⟩
+      · rw [hih.1, hd]; simp
+      · rw [hih.2.1]; congr 2; omega
+      · rw [hih.2.2]; congr 1; omega
+    | none =>
+      have hoff : off = pre.length := by
+        have := List.getElem?_eq_none_iff.mp hg; omega
+      subst hoff
+      cases post with
+      | nil => simp [srcToken]
+      | cons t ts =>
+        simp only [srcToken]
+        cases he : (ts.isEmpty && f == Framing.eof) with
+        | false =>
+          have hih := ih (pre ++ [t]) ts (pre.length + 1) (by simp)
+          simp only []
+          refine ⟨?_, ?_, ?_⟩
+          · have hdn : List.drop (pre.length + 1) pre = [] := List.drop_eq_nil_of_le (by omega)
+            rw [hih.1]; simp [List.drop_append, hdn]
+          · rw [hih.2.1]
+            have e1 : pre.length + 1 + c - (pre ++ [t]).length = c := by simp
+            have e2 : pre.length + (c + 1) - pre.length = c + 1 := by omega
+            rw [e1, e2]; simp
+          · rw [hih.2.2]
+            have e1 : pre.length + 1 + c - (pre ++ [t]).length = c := by simp
+            have e2 : pre.length + (c + 1) - pre.length = c + 1 := by omega
+            rw [e1, e2]; simp
+        | true =>
+          have hts : ts = [] := by
+            cases ts with
+            | nil => rfl
+            | cons a b => simp at he
+          subst hts
+          have e2 : pre.length + (c + 1) - pre.length = c + 1 := by omega
+          simp [e2, List.drop_append]
+
+/-- the call-by-call reader and the abstract `handlerRead` agree, for both framings -/
+theorem BR.stepRead_eq (f : Framing) (b : BR) (c : Nat) : b.stepRead f c = b.handlerRead c := by
+  have h := BufR.readN_spec f c b.buf b.rest 0 (Nat.zero_le _)
+  simp only [BR.stepRead, BR.handlerRead, BR.advance]
+  rw [Prod.mk.injEq]
+  refine ⟨by simpa using h.1, ?_⟩
+  have h1 := h.2.1
+  have h2 := h.2.2
+  simp only [Nat.zero_add] at h1 h2
+  rw [h1, h2]
+
+theorem dispatchChildrenG_eq (f : Framing) (tbl : Table) (k : Kind) (typ : String) :
+    ∀ (cs : List (Nat × Name)) (cons : List Nat) (b : BR),
+      dispatchChildrenG (BR.stepRead f) tbl k typ cs cons b = dispatchChildren tbl k typ cs cons b := by
+  intro cs
+  induction cs with
+  | nil => intro cons b; simp [dispatchChildrenG, dispatchChildren]
+  | cons c cs ih =>
+    intro cons b
+    obtain ⟨pos, n⟩ := c
+    unfold dispatchChildrenG dispatchChildren
+    cases hl : lookup tbl k typ n with
+    | none => simp only [ih]
+    | some p => simp only [ih, BR.stepRead_eq]
+
+theorem BR.advance_all (b : BR) :
+    b.advance (b.buf ++ b.rest).length = { buf := b.buf ++ b.rest, rest := [] } := by
+  have : (b.buf ++ b.rest).length - b.buf.length = b.rest.length := by simp
+  simp [BR.advance, this]
+
+theorem forChildrenF_eq (f : Framing) (tbl : Table) (k : Kind) (typ : String) (stanza : List Tok)
+    (cons : List Nat) : forChildrenF f tbl k typ stanza cons = forChildren tbl k typ stanza cons := by
+  cases stanza with
+  | nil => rfl
+  | cons start body =>
+    simp only [forChildrenF, forChildren, dispatchChildrenG_eq]
+    have hs := dispatchChildren_spec tbl k typ (start :: body) (children (start :: body)) cons
+      ⟨[start], body⟩ rfl
+    generalize dispatchChildren tbl k typ (children (start :: body)) cons ⟨[start], body⟩ = res at hs
+    obtain ⟨calls, b⟩ := res
+    have hinv : b.buf ++ b.rest = start :: body := hs.2
+    have hadv : b.advance (start :: body).length = { buf := start :: body, rest := [] } := by
+      rw [← hinv]; exact BR.advance_all b
+    simp only [hadv, BR.stepRead_eq, BR.handlerRead, List.append_nil]
+
 end XmppModel.Mux
